@@ -270,7 +270,9 @@ def rpPreds (obs : Json) (objs : List (String × List (Nat × ClassO))) (synced 
   -- decoded manifests/CRLs of every CA whose server content is its object set
   let p0 := objs.flatMap fun (h, cls) =>
     if !(synced h) then [] else cls.flatMap fun (_, c) => c.sets.flatMap (rpSetPreds rp)
-  if !((jbool? (jget rp "quiescent")).getD false) then p0 else
+  -- a repository sync that was put back ("premature", retried a second later) is still outstanding
+  let syncOutstanding := (handlesOf obs "server").any fun h => syncPending obs h
+  if !((jbool? (jget rp "quiescent")).getD false) || syncOutstanding then p0 else
   let lagging := laggingCas obs
   let underLagging (uri : String) : Bool :=
     lagging.any fun h => (uri.splitOn s!"/repo/{h}/").length > 1
